@@ -48,8 +48,9 @@ Section LND.
     (* per-operation oracle streams and error flag *)
     l_tris : list (option (list simplex));      (* outcomes of the next attempts to build the triangulation *)
     l_choose : list nat;                        (* next points produced by choose_point / random bootstrap *)
-    l_err : option err;                         (* the operation has raised *)
-    l_ok : bool                                 (* ghost: no operation has raised so far *)
+    l_err : option err;                         (* the current operation has raised *)
+    l_ok : bool                                 (* ghost: so far no operation raised, and every point chosen in an
+                                                   unsubdivided simplex did subdivide it (point_in_simplex said yes) *)
   }.
 
   Definition init_lnd : lnd := mkL [] [] None [] [] [] [] [] None true.
@@ -112,7 +113,7 @@ Section LND.
 
   (* ---------------- setters ---------------- *)
   Definition set_err (s : lnd) (e : err) : lnd :=
-    mkL (l_data s) (l_pend s) (l_tri s) (l_losses s) (l_subs s) (l_queue s) (l_tris s) (l_choose s) (Some e) false.
+    mkL (l_data s) (l_pend s) (l_tri s) (l_losses s) (l_subs s) (l_queue s) (l_tris s) (l_choose s) (Some e) (l_ok s).
   Definition set_queue (s : lnd) (q : list entry) : lnd :=
     mkL (l_data s) (l_pend s) (l_tri s) (l_losses s) (l_subs s) q (l_tris s) (l_choose s) (l_err s) (l_ok s).
   Definition set_losses (s : lnd) (x : list (simplex * L)) : lnd :=
@@ -129,6 +130,8 @@ Section LND.
     mkL (l_data s) (l_pend s) (l_tri s) (l_losses s) (l_subs s) (l_queue s) x (l_choose s) (l_err s) (l_ok s).
   Definition set_choose (s : lnd) (x : list nat) : lnd :=
     mkL (l_data s) (l_pend s) (l_tri s) (l_losses s) (l_subs s) (l_queue s) (l_tris s) x (l_err s) (l_ok s).
+  Definition set_ok (s : lnd) (x : bool) : lnd :=
+    mkL (l_data s) (l_pend s) (l_tri s) (l_losses s) (l_subs s) (l_queue s) (l_tris s) (l_choose s) (l_err s) x.
   Definition failed (s : lnd) : bool := match l_err s with Some _ => true | None => false end.
 
   Definition wf_simplices (n : nat) (ss : list simplex) : bool :=
@@ -291,7 +294,14 @@ Section LND.
               | None => (set_err (set_queue s []) ENoSimplex, None)   (* AssertionError *)
               | Some ((loss, sp, u), q') =>
                   let '(s, p) := next_choice (set_queue s q') in
-                  if failed s then (s, None) else (tell_pending s p (Some sp), Some (p, labs loss))
+                  if failed s then (s, None) else
+                  let s' := tell_pending s p (Some sp) in
+                  (* ghost: a point chosen in an unsubdivided simplex must subdivide it *)
+                  let s' := match u with
+                            | None => if shas sp (l_subs s') then s' else set_ok s' false
+                            | Some _ => s'
+                            end in
+                  (s', Some (p, labs loss))
               end
           end
       end.
@@ -351,7 +361,7 @@ Section LND.
     mkL (l_data s) (l_pend s) (l_tri s) (l_losses s) (l_subs s) (l_queue s) (e_tris E) (e_choose E) None (l_ok s).
 
   Definition finish (s : lnd) (pts : list (nat * L)) : lnd * out :=
-    match l_err s with Some e => (s, OErr e) | None => (s, ORet pts) end.
+    match l_err s with Some e => (set_ok s false, OErr e) | None => (s, ORet pts) end.
 
   Definition step (s : lnd) (o : op) : lnd * out :=
     match o with
